@@ -595,6 +595,9 @@ Json genLayoutSession(Rng &r, const std::string &tier, int flavour /*0 constrain
             double d = Wd(dim, i) - pos; if (d == 0) continue;
             double off = d < 0 ? -std::floor(-d * (double)r.range(1, 10) / 10.0) : std::floor(d * (double)r.range(1, 10) / 10.0);
             if (off == 0) continue;
+            // side stream: a shape on the right now and then sits at offset exactly 0 (it may touch the boundary line; the library
+            // documents non-negative offsets as "right of the boundary")
+            { Rng r2(Rng::mix(r.s, "boundary-zero-offset")); if (d > 0 && r2.chance(0.3)) off = 0; }
             Json e = Json::arr(); e.push(i); e.push(off); sh.push(e);
         }
         if (sh.size() == 0) continue;
